@@ -439,3 +439,109 @@ class KineticDensity(DensityBase):
             with self.patched(dens, stub):
                 M.raises("general_ked/rejects/alpha-type", lambda: dens.evaluate_general_kinetic_energy_density(dm, basis, points, "1"), TypeError)
                 M.raises("general_ked/rejects/alpha-none", lambda: dens.evaluate_general_kinetic_energy_density(dm, basis, points, None), TypeError)
+
+
+class ThresholdAnyN(DensityBase):
+    """UNBOUNDED in the number of points: numpy's `min` is replaced by its contract (an opaque value m with
+    m <= every element), two generic elements v0, v1 stand for any two of the N values; the rule
+        v >= 0 -> v ;  -thr <= v < 0 -> 0 ;  some v < -thr (i.e. m < -thr) -> raises
+    is then decided for the returned quantity of evaluate_density and evaluate_posdef_kinetic_energy_density
+    independently of N."""
+
+    function = "gbasis.evals.density.evaluate_density / evaluate_posdef_kinetic_energy_density (any number of points)"
+
+    def shapes(self, tier):
+        return [dict(what="density"), dict(what="posdef")]
+
+    def run(self, shape, M):
+        dens, stub, basis, points, dm, transform = self.setup(M, dict(npts=2))
+        thr = M.pos("thr")
+        mval = M.opq("minimum")
+        half = M.SF.num(1) / 2
+        if shape["what"] == "density":
+            vals_code = M.vec("rho", (2,), "opq")
+            factor = 1
+
+            def inner(dm_, orb):
+                return vals_code.copy()
+
+            patches = [(dens, "evaluate_density_using_evaluated_orbs", inner)]
+
+            def call():
+                return dens.evaluate_density(dm, basis, points, threshold=M.scalar(thr))
+        else:
+            tau = {e: M.vec("tau%d%d%d" % e, (2,), "opq") for e in E3}
+            factor = half
+
+            def rdm(o1, o2, dm_, basis_, points_, transform=None, deriv_type="general"):
+                return tau[tuple(int(x) for x in o1)].copy()
+
+            patches = [(dens, "evaluate_deriv_reduced_density_matrix", rdm)]
+
+            def call():
+                return dens.evaluate_posdef_kinetic_energy_density(dm, basis, points, threshold=M.scalar(thr))
+
+        seen = []
+
+        def min_contract(arr, *a, **k):
+            seen.append(arr)
+            return mval
+
+        def body():
+            del seen[:]
+            with self.patched(dens, stub, *patches), bind.patched((bind.PROXY, "min", min_contract), (bind.PROXY, "amin", min_contract)) if M.symbolic else _np_min_patch(dens, min_contract):
+                return call()
+
+        # the returned quantity per element, and the quantity numpy's min was asked about
+        if shape["what"] == "density":
+            vs = [M.to_spec(vals_code)[n] for n in range(2)]
+        else:
+            st = {e: M.to_spec(tau[e]) for e in E3}
+            vs = [(st[E3[0]][n] + st[E3[1]][n] + st[E3[2]][n]) * half for n in range(2)]
+        sm = M.to_spec(mval) if not M.symbolic else mval
+        sthr = M.to_spec(thr) if not M.symbolic else thr
+        if not M.symbolic:
+            return  # the abstraction has no native counterpart: the N = 1, 2, 3 harnesses are replayed natively instead
+        # contract of min: the array it is applied to holds (a positive multiple of) the returned values, and m <= each
+        paths = M.paths(body, assumptions=[])
+        M.true("threshold_anyN/pre@min", len(seen) == 1, "numpy min asked once")
+        import numpy as _np
+
+        arr = seen[0] if seen else None
+        ratio_ok = arr is not None and _np.shape(arr) == (2,)
+        M.true("threshold_anyN/pre@min/argument-shape", ratio_ok, "")
+        if not ratio_ok:
+            return
+        # m is the minimum of the array `arr` the code passed to min; relate arr to the returned values v = c * arr
+        from engine import paths as P
+
+        for k, p in enumerate(paths):
+            pn = "threshold_anyN/%s/path%d" % (shape["what"], k)
+            # assumptions: m <= arr[n] for the two generic elements
+            p.fixed = list(p.fixed) + [M.atom(mval, "<=", arr[0]), M.atom(mval, "<=", arr[1])]
+            r, _, _ = P.check_sat(p.formulas())
+            if r == "unsat":
+                # a path explored without the contract of min (m <= every element) that the contract excludes
+                M.true(pn + "/excluded-by-contract-of-min", True, "infeasible once m <= v0, v1 is assumed")
+                continue
+            M.feasible(pn + "/feasible", p)
+            # the value v_n the function returns (before clipping) and what min saw must be consistent: v_n = c * arr[n], c > 0
+            c = None
+            for n in range(2):
+                M.eq(pn + "/min-applied-to-returned-quantity" + tag((n,)), arr[n], vs[n]) if shape["what"] == "density" or True else None
+            m_v = mval  # after the eq obligations above, arr == v, hence m bounds the returned values
+            if p.exc is not None:
+                M.true(pn + "/raises-ValueError", isinstance(p.exc, ValueError), repr(p.exc))
+                M.implies(pn + "/raises-only-if-minimum-below-minus-threshold", p, M.atom(m_v, "<", -sthr))
+            else:
+                M.implies(pn + "/returns-only-if-minimum-not-below-minus-threshold", p, M.atom(m_v, ">=", -sthr))
+                out = p.outcome
+                for n, v in enumerate(vs):
+                    M.implies(pn + "/nonnegative-returned-unchanged" + tag((n,)), p, M.f_or(M.atom(v, "<", 0), M.atom(out[n], "==", v)))
+                    M.implies(pn + "/small-negative-returned-as-zero" + tag((n,)), p, M.f_or(M.atom(v, ">=", 0), M.atom(out[n], "==", 0)))
+
+
+def _np_min_patch(dens, fn):
+    import contextlib
+
+    return contextlib.nullcontext()
